@@ -123,3 +123,70 @@ Definition client_failure_order : bool :=
       before "set:Clnt.err" "close:done" v && then_ "close:done" "send:Done" v)
   && (let c := shape_of "Clnt.Rpc" in
       before "call:Rpcnb" "recv:Done" c && then_ "recv:Done" "call:ReqFree" c).
+
+
+(* [a] is the event immediately before the first [b] *)
+Fixpoint imm_before (a b : string) (l : list string) : bool :=
+  match l with
+  | x :: ((y :: _) as r) => if String.eqb y b then String.eqb x a else imm_before a b r
+  | _ => false
+  end.
+
+Definition count_ev (e : string) (l : list string) : nat := length (filter (String.eqb e) l).
+Fixpoint count_before (x b : string) (l : list string) : nat :=
+  match l with
+  | [] => O
+  | e :: r => if String.eqb e b then O else (if String.eqb e x then 1 else 0) + count_before x b r
+  end.
+
+(* ---------- what the models assume about the shape of the handlers ---------- *)
+
+(* srv_fcall.go (Srv/Seq.v): every refusal of walk / open / create comes before the handler changes the fid or the
+   table (FidNew, Omode); walkPost retains the new fid only after comparing the two fid numbers *)
+Definition handlers_check_before_they_change : bool :=
+  (let w := shape_of "Srv.walk" in
+   before "use:SrvFid.opened" "call:FidNew" w && before "use:SrvFid.Type" "call:FidNew" w && before "call:FidNew" "call:Walk" w)
+  && (let o := shape_of "Srv.open" in
+      before "use:SrvFid.opened" "set:SrvFid.Omode" o && negb (then_ "set:SrvFid.Omode" "call:RespondError" o) && then_ "set:SrvFid.Omode" "call:Open" o)
+  && (let c := shape_of "Srv.create" in
+      before "use:SrvFid.opened" "set:SrvFid.Omode" c && negb (then_ "set:SrvFid.Omode" "call:RespondError" c) && then_ "set:SrvFid.Omode" "call:Create" c)
+  && (let p := shape_of "Srv.walkPost" in
+      Nat.leb 2 (count_before "use:SrvFid.fid" "call:retain" p)).
+
+(* srv_fcall.go flush: the Tflush is chained to its target inside the connection's critical section *)
+Definition flush_chains_under_conn_lock : bool :=
+  let f := shape_of "Srv.flush" in
+  before "lock:Conn" "set:SrvReq.flushreq" f && before "set:SrvReq.flushreq" "unlock:Conn" f && before "lock:Conn" "set:SrvReq.flushnext" f.
+
+(* Respond hands the reply over with a select on reqout / done (never a bare send); send keeps serving the queue
+   after a write error; DecRef and Conn.close call the implementation after they released their mutex *)
+Definition disconnect_paths : bool :=
+  (let r := shape_of "SrvReq.Respond" in imm_before "send:reqout" "recv:done" r)
+  && (let s := shape_of "Conn.send" in negb (then_ "call:Close" "return" s))
+  && (let d := shape_of "SrvFid.DecRef" in negb (has "defer unlock:Conn" d) && before "unlock:Conn" "call:FidDestroy" d)
+  && (let c := shape_of "Conn.close" in negb (has "defer unlock:Srv" c) && before "unlock:Srv" "call:ConnClosed" c).
+
+(* srv_conn.go recv (Recv/Recv.v: parameters re-read after a synchronous Tversion): the dialect handed to Unpack
+   is read from the connection at every message *)
+Definition recv_rereads_dialect : bool :=
+  imm_before "use:Conn.Dotu" "call:Unpack" (shape_of "Conn.recv") && imm_before "use:Clnt.Dotu" "call:Unpack" (shape_of "Clnt.recv").
+
+(* clnt_clnt.go: every failure path publishes the error before done is closed; the done branch of the hand-over
+   does not report an error of its own *)
+Definition client_failure_paths : bool :=
+  Nat.eqb (count_before "set:Clnt.err" "close:done" (shape_of "Clnt.recv")) 4
+  && negb (has "use:Clnt.err" (after_first "recv:done" (shape_of "Clnt.Rpcnb"))).
+
+(* ufs.go, one fact per property *)
+Definition ufs_reads_positionally : bool :=                       (* C14: ReadAt / WriteAt, no shared file position *)
+  (let r := shape_of "Ufs.Read" in has "call:ReadAt" r && negb (has "call:Seek" r))
+  && (let w := shape_of "Ufs.Write" in has "call:WriteAt" w && negb (has "call:Seek" w)).
+Definition ufs_dir_records : bool :=                              (* C15: records in the connection's dialect; both tables reset together *)
+  let r := shape_of "Ufs.Read" in
+  imm_before "use:Conn.Dotu" "call:PackDir" r && imm_before "set:ufsFid.dirents" "set:ufsFid.direntends" r.
+Definition ufs_looks_at_the_tree : bool :=                        (* C16: Lstat per walked element; Stat refreshes before it answers *)
+  (let w := shape_of "Ufs.Walk" in has "call:Lstat" w && negb (has "call:Stat" w) && negb (has "call:stat" w))
+  && (let t := shape_of "Ufs.Stat" in before "call:stat" "use:ufsFid.st" t).
+Definition ufs_reports_errno : bool := has "call:As" (shape_of "toError").   (* C17 *)
+Definition ufs_attach_anchors_at_root : bool :=                   (* C18: Join(root, Join("/", aname)) *)
+  Nat.eqb (count_ev "call:Join" (shape_of "Ufs.Attach")) 2 && negb (has "call:Clean" (shape_of "Ufs.Attach")).
